@@ -71,6 +71,21 @@ def compute(prog, name, extra_opaque=(), effects=False, sinks=None, closures=Fal
                 if ba != bb and ka != kb and cfg.dominates(ba, bb):
                     order.add('%s before %s' % (ka, kb))
     compute.last_order = sorted(order)
+    # named constants of the crate used by the body (helpers are inlined in `b`) and by its closures: name -> value
+    # (or body digest when the initialiser is not a plain integer expression)
+    used = {}
+    pc = getattr(prog, 'consts', {}) or {}
+    for body in [b] + prog.closures_of(prog.body(name)) + [c for g in getattr(b, '_inlined', []) for c in prog.closures_of(prog.body(g))]:
+        for blk in body.blocks.values():
+            if blk.cleanup:
+                continue
+            for it in list(blk.stmts) + [blk.term]:
+                for e in (it.extra or []):
+                    for m in re.finditer(r'Unevaluated\(([A-Z][A-Z0-9_]*),', e):
+                        if m.group(1) in pc:
+                            c = pc[m.group(1)]
+                            used[m.group(1)] = c['value'] if c['value'] is not None else 'digest:' + c['digest']
+    compute.last_consts = used
     return out, getattr(b, '_inlined', [])
 
 
@@ -173,5 +188,14 @@ def check(ctx, rule, name):
         # only meaningful while both effects still exist (their removal is reported by the entries above)
         ok = o in compute.last_order or not (a in present and bname in present)
         ctx.ob(rule, name, 'effect order kept: %s' % o, ok, problem=None if ok else 'the second effect is now reachable without the first having been performed (crash / failure between them leaves the later one alone)')
+    for cname, cval in sorted((ent.get('consts') or {}).items()):
+        n += 1
+        now = compute.last_consts.get(cname)
+        if now is None:
+            pc = ctx.prog.consts.get(cname)
+            now = None if pc is None else (pc['value'] if pc['value'] is not None else 'digest:' + pc['digest'])
+        # a constant that is no longer used is reported by the entries above (the expression that used it changed)
+        ok = now is None or now == cval
+        ctx.ob(rule, name, 'constant kept: %s' % cname, ok, reviewed=cval, now=now)
     ctx.floor(rule, 'census obligations for ' + name, n, max(1, ent.get('floor', 1)))
     return actual
